@@ -330,6 +330,16 @@ impl CountUnique {
         if let Some(col) = columns.get(&self.field) {
             if let Some(s) = col.get_str_at(row_idx) {
                 self.uniq.insert(s.to_string());
+            } else if let Some(i) = col.get_i64_at(row_idx) {
+                // Typed numeric / bool columns have no string view: use the same text form as
+                // update_from_event so that memory and segment partials merge on equal keys.
+                self.uniq.insert(i.to_string());
+            } else if let Some(u) = col.get_u64_at(row_idx) {
+                self.uniq.insert(u.to_string());
+            } else if let Some(f) = col.get_f64_at(row_idx) {
+                self.uniq.insert(f.to_string());
+            } else if let Some(b) = col.get_bool_at(row_idx) {
+                self.uniq.insert(b.to_string());
             } else {
                 // Missing value in column: treat as empty string (consistent with update_from_event)
                 self.uniq.insert(String::new());
